@@ -1040,7 +1040,8 @@ fn _update_tx_pool_for_reorg(
             .iter()
             .map(|entry| entry.inner.proposal_short_id())
             .filter(|id| {
-                !snapshot.proposals().contains_gap(id) && !snapshot.proposals().contains_proposed(id)
+                !snapshot.proposals().contains_gap(id)
+                    && !snapshot.proposals().contains_proposed(id)
             })
             .collect();
         tx_pool.remove_by_detached_proposal(stale_gap.iter());
